@@ -98,6 +98,10 @@ func NewDataStore(table *Table, peer *Peer) (d *DataStore) {
 // InsertData adds a list of results and initializes the store table.
 func (d *DataStore) InsertData(rows ResultSet, columns ColumnList, setReferences bool) error {
 	now := currentUnixTime()
+	// new rows read the data sizes of the table, which grow when another peer creates a store that uses
+	// further columns (NewDataStore); AppendData holds this lock for the same reason
+	d.table.lock.RLock()
+	defer d.table.lock.RUnlock()
 	switch len(d.table.primaryKey) {
 	case 0:
 	case 1:
